@@ -56,7 +56,7 @@ def run(ctx):
                 return n["v"]
         return None
 
-    def explore_failure(f, node, failv, extra=None):
+    def explore_failure(f, node, failv, extra=None, entry=None):
         """Outcomes of f on which the call at `node` fails."""
         cal0 = f.nodes[node].get("callee")
         sums = {}
@@ -76,14 +76,16 @@ def run(ctx):
                 # error (not EEXIST / ENOENT), so errno keeps what the code stored before
                 return [PTR("ERRNO")]
             return unk_default(cal)
-        ex = absint.Explorer(prog, effects=eff, auto_inline=False, on_unknown_call=unk,
+        # entry given: f is a private helper of entry, interpreted in place (the failing site is inside it)
+        ex = absint.Explorer(prog, effects=eff, auto_inline=entry is not None, on_unknown_call=unk,
                              loop_bound=2, max_paths=30000, summaries=sums)
         if cal0 == "fwrite":
             # a short write: fewer items than the (positive) number just read
             nread = ex.sym("nread", 1, 1 << 20)
             sums["fread"] = lambda ex_, st, args, f_, e: [(nread, {})]
         ex.summaries = sums
-        outs = ex.run(f, [TOP] * len(f.params), {})
+        top = entry or f
+        outs = ex.run(top, [TOP] * len(top.params), {})
         return [o for o in outs if any(ev[0] == "call" and ev[3] == f.key and ev[4] == node for ev in o.events)]
 
     def handled(f, node, failv, depth=0, extra=None):
@@ -198,32 +200,40 @@ def run(ctx):
     # ---- R10.2 ------------------------------------------------------------------------
     mt = prog.fn("move_thread_to_final", OV)
     copy_ops = {"fwrite": ("zero", None), "fclose": ("eof", "out"), "fread": ("zero", None)}
-    for node in mt.calls():
-        cal = mt.nodes[node].get("callee")
-        if cal not in copy_ops:
-            continue
-        if cal == "fclose":
-            # only the output stream matters for the data
-            arg = mt.src(mt.nodes[node]["args"][0])
-            if "out" not in arg:
+    # the copy may be split among private helpers of move_thread_to_final: sites are looked for in all of them
+    # and each failure is followed from move_thread_to_final itself
+    priv = prog.helper_closure({mt.name}, OV)
+    parts = [g for g in prog.reachable_fns([mt]) if g.file == OV and g.name in priv]
+    has_ferror = any(m["k"] == "CallExpr" and m.get("callee") == "ferror" for g in parts for m in g.nodes)
+    fopen_w = set()
+    for g in parts:
+        for node in g.calls():
+            cal = g.nodes[node].get("callee")
+            if cal not in copy_ops:
                 continue
-        kind = copy_ops[cal][0]
-        extra = {"ferror": [INT(1)]} if cal == "fread" else None
-        outs = explore_failure(mt, node, fail_value(kind), extra)
-        bad = False
-        for o in outs:
-            after = False
-            for ev in o.events:
-                if ev[0] == "call" and ev[3] == mt.key and ev[4] == node:
-                    after = True
+            if cal == "fclose":
+                # only the output stream matters for the data: the stream is identified by what fclose is
+                # given on the path, see below (the source stream's fclose is a frozen best-effort exception)
+                arg = g.src(g.nodes[node]["args"][0])
+                if "out" not in arg and "dst" not in arg:
                     continue
-                if after and ev[0] == "call" and ev[1] in DESTR:
-                    bad = True
-        if cal == "fread" and not any(m["k"] == "CallExpr" and m.get("callee") == "ferror" for m in mt.nodes):
-            bad = True
-        ctx.check(bool(outs) and not bad, "R10.2", "move_thread_to_final:remove-after-failed-%s" % cal, mt.loc(node),
-                  "when %s() fails while copying a stream to its final place the temporary (only complete) copy "
-                  "is still removed" % cal)
+            kind = copy_ops[cal][0]
+            extra = {"ferror": [INT(1)]} if cal == "fread" else None
+            outs = explore_failure(g, node, fail_value(kind), extra, entry=None if g is mt else mt)
+            bad = False
+            for o in outs:
+                after = False
+                for ev in o.events:
+                    if ev[0] == "call" and ev[3] == g.key and ev[4] == node:
+                        after = True
+                        continue
+                    if after and ev[0] == "call" and ev[1] in DESTR:
+                        bad = True
+            if cal == "fread" and not has_ferror:
+                bad = True
+            ctx.check(bool(outs) and not bad, "R10.2", "move_thread_to_final:remove-after-failed-%s" % cal, g.loc(node),
+                      "when %s() fails while copying a stream to its final place the temporary (only complete) copy "
+                      "is still removed" % cal)
 
     # ---- R10.3 ---------------------------------------------------------------------------
     # a short write is an I/O fault too: the loop must resume where the kernel stopped (same evaluation as C01 R1.3)
